@@ -431,6 +431,32 @@ func registerNatives(P *Program) {
 		}
 		return fr.m.tt.Bool(p)
 	})
+	reg(V("Completes"), func(fr *frame, a []value) (ret value) {
+		m := fr.m
+		depth := m.depth
+		ret = m.tt.True
+		defer func() {
+			if r := recover(); r != nil {
+				if pa, ok := r.(pathAbort); ok && pa.kind == abortExit && strings.HasPrefix(pa.msg, "deadlock") {
+					m.depth = depth
+					m.curFrame = fr
+					m.facts["blocked"] = pa.msg
+					ret = m.tt.False
+					return
+				}
+				if _, ok := r.(targetPanic); ok {
+					// a panic ends f as well (Panics is the primitive to assert its absence)
+					m.depth = depth
+					m.curFrame = fr
+					ret = m.tt.True
+					return
+				}
+				panic(r)
+			}
+		}()
+		m.call(fr, a[0], nil)
+		return m.tt.True
+	})
 	reg(V("PanicValue"), func(fr *frame, a []value) value {
 		msg, p := runCatching(fr, a[0])
 		if p && msg == "" {
